@@ -508,6 +508,53 @@ let check_medium kind capn ops =
   | [], _ :: _ -> "DIFF " ^ String.concat "; " (List.rev !diffs)
   | [], [] -> "OK"
 
+(* ---------------------------------------------------------------------------------------- *)
+(* kind 9: a cancellation that lands during the call (context flips after its n-th consultation) *)
+
+let check_sweep target op scenario n res value delivered latch_obs =
+  let k = (match target with 1 -> MAcc | 2 -> MChan (nat_of_int 4) | _ -> MQueue) in
+  let nn = nat_of_int n in
+  let s0 = minit_medium k in
+  let item = n_of_int 7 in
+  let code r = (match r with
+      | MRSend true -> (1, 0) | MRSend false -> (0, 0)
+      | MRRecv (Some v) -> (1, int_of_n v) | MRRecv None -> (0, 0)
+      | MRBlock -> (2, 0) | MRClose -> (0, 0) | MRPanic -> (7, 0)) in
+  if op = 0 then begin
+    let s0 = if scenario = 1 then fst (med_step s0 MClose) else s0 in
+    let live = if target = 3 then queue_send_live nn else send_live k nn in
+    let o = MSend (live, item) in
+    let (s1, r1) = (match (if res = 1 && not live then med_step_alt s0 o else None) with
+        | Some x -> x | None -> med_step s0 o) in
+    dpush [fst (code r1); List.length s1.mch.c_buf];
+    (* the property: delivered <=> Send returned true *)
+    if (res = 1) <> (delivered = 1) || delivered > 1 then
+      Printf.sprintf "PROP Send with a context cancelled after %d consultation(s) returned %s but the item was delivered %d time(s): hand-over is not exactly-once (the caller keeps ownership on false and releases the message)"
+        n (if res = 1 then "true" else "false") delivered
+    else if res = 2 || res = 9 then "PROP Send blocked on a medium with room"
+    else if code r1 <> (res, 0) then
+      Printf.sprintf "DIFF Send, cancellation after %d consultation(s): model %d implementation %d" n (fst (code r1)) res
+    else "OK"
+  end else begin
+    let s0 = (match scenario with
+        | 0 -> fst (med_step s0 (MSend (true, item)))
+        | 2 -> fst (med_step s0 MClose)
+        | _ -> s0) in
+    let live = recv_live k (scenario = 2) nn in
+    let (s1, r1) = med_step s0 (MRecv (live, res = 1)) in
+    dpush [fst (code r1); snd (code r1); if s1.latch then 1 else 0];
+    let expected_left = (if scenario = 0 && res <> 1 then 1 else 0) in
+    if delivered <> expected_left then
+      Printf.sprintf "PROP Recv with a context cancelled after %d consultation(s): %d item(s) drained afterwards, expected %d (lost or duplicated)" n delivered expected_left
+    else if res = 1 && value <> 7 then "PROP Recv returned an item that was never sent"
+    else if code r1 <> (res, value) then
+      Printf.sprintf "DIFF Recv (scenario %d), cancellation after %d consultation(s): model (%d,%d) implementation (%d,%d)"
+        scenario n (fst (code r1)) (snd (code r1)) res value
+    else if target < 2 && s1.latch <> latch_obs then
+      Printf.sprintf "DIFF closed latch after Recv (scenario %d, n=%d): model %b implementation %b" scenario n s1.latch latch_obs
+    else "OK"
+  end
+
 let f0 _id vs =
   match vs with
   | [I "1"; cap; exts; valid; ops] -> check_mpmc_seq (as_int cap) (as_int exts) (as_int valid) (as_list ops)
@@ -520,6 +567,9 @@ let f0 _id vs =
     check_probe (as_int variant)
       (List.map (fun v -> match as_list v with [a; b] -> (as_int a, as_int b) | _ -> (-1, -1)) (as_list obs))
   | [I "7"; kind; capn; ops] -> check_medium (as_int kind) (as_int capn) (as_list ops)
+  | [I "9"; target; op; scenario; n; res; value; delivered; latch] ->
+    check_sweep (as_int target) (as_int op) (as_int scenario) (as_int n) (as_int res) (as_int value)
+      (as_int delivered) (as_int latch = 1)
   | [I "8"; _rounds; _observed] -> "OK"   (* an observation is reported by the driver as !PROP *)
   | _ -> "DIFF malformed-record"
 
